@@ -462,6 +462,9 @@ func parseTraversalStep(nativeStep hcl.Traverser, from inputTokens) (before inpu
             key := newNumber(valToken)
             step.key = children.Append(key)
             children.AppendUnstructuredTokens(valAfter.Tokens())
+        default:
+            // a key of any other type (true, false, null) keeps its tokens
+            children.AppendUnstructuredTokens(keyTokens.Tokens())
         }
 
         children.AppendUnstructuredTokens(cBrack.Tokens())
